@@ -1311,7 +1311,12 @@ where
                 })
                 .collect::<Result<Vec<_>, Error>>()?
                 .concat();
-            assert_eq!(nb_missing_chunks, 0);
+            // If more chunks than the limbs hold were requested, pad with zeros.
+            let mut chunks = chunks;
+            if nb_missing_chunks > 0 {
+                let zero = self.native_gadget.assign_fixed(layouter, F::ZERO)?;
+                chunks.resize(chunks.len() + nb_missing_chunks, zero);
+            }
             Ok(chunks)
         }
         // When nb_bits_per_chunk does not divide P::LOG2_BASE we cannot proceed as above,
